@@ -214,7 +214,7 @@ public:
         if (isa<CXXNullPtrLiteralExpr>(E) || isa<GNUNullExpr>(E)) { o << "{\"k\":\"null\"}"; return; }
         if (auto *X = dyn_cast<StringLiteral>(E)) {
             o << "{\"k\":\"str\",\"v\":";
-            if (X->getCharByteWidth() == 1) jstr(o, X->getString()); else o << "\"<wide>\"";
+            if (X->getCharByteWidth() == 1) jstr(o, X->getString(), 4000); else o << "\"<wide>\"";
             o << "}"; return;
         }
         if (auto *X = dyn_cast<FloatingLiteral>(E)) {
@@ -303,6 +303,7 @@ public:
                 else { o << ",\"ind\":1,\"f\":\"*\",\"fe\":"; expr(C, o, depth + 1); }
             }
             if (!X->getType().isNull() && !X->getType()->isVoidType()) { o << ",\"t\":"; jstr(o, typeStr(X->getType())); intWidth(o, X->getType()); }
+            if (FD && FD->isConstexpr()) tryConst(E, o);
             if (FD) {
                 if (auto *MD = dyn_cast<CXXMethodDecl>(FD)) if (MD->isConst() || MD->isStatic()) o << ",\"cm\":1";
                 std::string br;
@@ -807,6 +808,8 @@ public:
 
 } // namespace
 
+static std::vector<std::pair<std::string, std::string>> gOverlay;
+
 int main(int argc, const char **argv) {
     std::vector<std::string> flags;
     std::string src;
@@ -819,6 +822,9 @@ int main(int argc, const char **argv) {
         else if (a.rfind("--hdr=", 0) == 0) {
             std::stringstream ss(a.substr(6)); std::string t;
             while (std::getline(ss, t, ',')) if (!t.empty()) gHdr.push_back(t);
+        } else if (a.rfind("--overlay=", 0) == 0) {
+            std::string v = a.substr(10); size_t eq = v.find('=');
+            if (eq != std::string::npos) gOverlay.emplace_back(v.substr(0, eq), v.substr(eq + 1));
         } else src = a;
     }
     for (; i < argc; ++i) flags.push_back(argv[i]);
@@ -828,6 +834,15 @@ int main(int argc, const char **argv) {
     flags.push_back("-Wno-everything");
     clang::tooling::FixedCompilationDatabase DB(".", flags);
     clang::tooling::ClangTool Tool(DB, {src});
+    // --overlay=<path>=<file>: analyse as if <path> had the content of <file> (mutation self-validation; nothing on disk changes)
+    std::vector<std::string> overlayContent;
+    overlayContent.reserve(gOverlay.size());
+    for (auto &ov : gOverlay) {
+        auto buf = llvm::MemoryBuffer::getFile(ov.second);
+        if (!buf) { llvm::errs() << "sqfacts: cannot read overlay " << ov.second << "\n"; return 2; }
+        overlayContent.push_back((*buf)->getBuffer().str());
+        Tool.mapVirtualFile(ov.first, overlayContent.back());
+    }
     int rc = Tool.run(clang::tooling::newFrontendActionFactory<Action>().get());
     if (rc != 0) return 3;
     return 0;
